@@ -1,0 +1,46 @@
+//go:build verif
+// +build verif
+
+package flate
+
+import "io"
+
+// VerifReaderCounters is a snapshot of the bookkeeping counters of a Reader
+// created by NewReader (verification hook, build tag `verif` only).
+type VerifReaderCounters struct {
+	WritePos, ReadPos, PeekSize, InputLen, BitsLen int
+	InputNil                                       bool
+	Phase, Bfinal, LitBlockLength, HeaderBuffered  int
+	WriteOverflowLen, CopyOverflowLength           int
+	Roffset                                        int64
+	Eof                                            bool
+	Err                                            error
+	Buffered                                       int
+}
+
+// VerifReaderState returns the counters of r, ok=false if r is not a fastgo Reader.
+func VerifReaderState(r io.Reader) (c VerifReaderCounters, ok bool) {
+	d, ok := r.(*decompressor)
+	if !ok {
+		return c, false
+	}
+	c.WritePos = d.writePos
+	c.ReadPos = d.readPos
+	c.PeekSize = d.peekSize
+	c.InputLen = len(d.state.input)
+	c.InputNil = d.state.input == nil
+	c.BitsLen = int(d.state.bitsLen)
+	c.Phase = int(d.state.phase)
+	c.Bfinal = int(d.state.bfinal)
+	c.LitBlockLength = d.state.litBlockLength
+	c.HeaderBuffered = int(d.state.headerBuffered)
+	c.WriteOverflowLen = int(d.state.writeOverflowLen)
+	c.CopyOverflowLength = int(d.state.copyOverflowLength)
+	c.Roffset = d.state.roffset
+	c.Eof = d.eof
+	c.Err = d.err
+	if d.rBuf != nil {
+		c.Buffered = d.rBuf.Buffered()
+	}
+	return c, true
+}
